@@ -570,27 +570,29 @@ func (peer *peer) filterPathFromSourcePeer(path, old *table.Path) *table.Path {
 		return path
 	}
 
-	// Note: Multiple paths having the same prefix could exist the withdrawals
-	// list in the case of Route Server setup with import policies modifying
-	// paths. In such case, gobgp sends duplicated update messages; withdraw
-	// messages for the same prefix.
-	if !peer.isRouteServerClient() {
-		if peer.isRouteReflectorClient() && path.GetFamily() == bgp.RF_RTC_UC {
-			// When the peer is a Route Reflector client and the given path
-			// contains the Route Tartget Membership NLRI, the path should not
-			// be withdrawn in order to signal the client to distribute routes
-			// with the specific RT to Route Reflector.
-			return path
-		} else if !path.IsWithdraw && old != nil && old.GetSource().Address.String() != peer.ID() {
-			// Say, peer A and B advertized same prefix P, and best path
-			// calculation chose a path from B as best. When B withdraws prefix
-			// P, best path calculation chooses the path from A as best. For
-			// peers other than A, this path should be advertised (as implicit
-			// withdrawal). However for A, we should advertise the withdrawal
-			// path. Thing is same when peer A and we advertized prefix P (as
-			// local route), then, we withdraws the prefix.
-			return old.Clone(true)
-		}
+	if !peer.isRouteServerClient() && peer.isRouteReflectorClient() && path.GetFamily() == bgp.RF_RTC_UC {
+		// When the peer is a Route Reflector client and the given path
+		// contains the Route Tartget Membership NLRI, the path should not
+		// be withdrawn in order to signal the client to distribute routes
+		// with the specific RT to Route Reflector.
+		return path
+	} else if !path.IsWithdraw && old != nil && old.GetSource().Address.String() != peer.ID() {
+		// Say, peer A and B advertized same prefix P, and best path
+		// calculation chose a path from B as best. When B withdraws prefix
+		// P, best path calculation chooses the path from A as best. For
+		// peers other than A, this path should be advertised (as implicit
+		// withdrawal). However for A, we should advertise the withdrawal
+		// path. Thing is same when peer A and we advertized prefix P (as
+		// local route), then, we withdraws the prefix.
+		//
+		// This holds for a route server client as well: its own routes are
+		// not in its view of the table, so "from me" only happens when
+		// another client uses the same router ID (a second session of the
+		// same router, or a router of another AS, RFC 6286). The old best
+		// of that client may have been advertised and must not stay with
+		// it. (With import policies modifying paths this can send a
+		// withdrawal for a prefix more than once.)
+		return old.Clone(true)
 	}
 	peer.fsm.logger.Debug("From me, ignore",
 		slog.String("Topic", "Peer"),
